@@ -121,6 +121,15 @@ def ordering_stores(ctx, rid, f, cls, theory_call):
     from ..expr import mentions
     snodes = {id(n): (show(X), show(Y)) for X, Y, val, n in stores}
     cover = {}
+    # what is computed from which atom: the parameters and, transitively, the locals initialised from them
+    dep = {0: {'atm0'}, 1: {'atm1'}}
+    for _ in range(6):
+        for d, nd in env.decls.items():
+            if isinstance(nd.get('init'), dict) and nd.get('name'):
+                ti = canon(nd['init'], env, subst=False)
+                for k in (0, 1):
+                    if any(mentions(ti, x) for x in dep[k]):
+                        dep[k].add(nd['name'])
     for p in enum_paths(f.body):
         A = {0: None, 1: None}
         guard = None
@@ -128,13 +137,16 @@ def ordering_stores(ctx, rid, f, cls, theory_call):
             if c[0] != 'if':
                 continue
             t = canon(c[1], env)
-            m0, m1 = mentions(t, 'atm0'), mentions(t, 'atm1')
+            t2 = canon(c[1], env, subst=False)
+            m0 = any(mentions(t, x) or mentions(t2, x) for x in dep[0])
+            m1 = any(mentions(t, x) or mentions(t2, x) for x in dep[1])
             if m0 and m1:
                 guard = c[2] if guard is None else (guard and c[2])
             elif (m0 or m1) and isinstance(t, tuple) and t[0] == 'dyncast':
                 A[0 if m0 else 1] = c[2]
         got = {snodes[id(m)] for st in p.stmts for m in walk(st) if id(m) in snodes}
-        must = (A[0] is True and A[1] is True) or guard is True
+        # two variables: the atoms may meet when their domains share a value (decided inside the loop over the values, or by a test before it)
+        must = (A[0] is True and A[1] is True and guard is not False) or guard is True
         key = (A[0], A[1])
         if got:
             cover[key] = True
